@@ -18,10 +18,29 @@ Spec on the implementation (exact integer / `Fraction` arithmetic, independent o
     by `create_stog` with the trunk first and every other rectangle located on a side.
   * decimal stream (last clause, as a design is really loaded): polygons on one-decimal grids, magnitudes 10..1000,
     long contacts next to small sides, decomposed and loaded as the only module of a `Netlist` in a clean tolerance
-    state (the netlist derives ε itself): `has_stog`, trunk first, order kept, side roles.  Failures inside the region
+    state (the netlist derives ε itself): `has_stog`, trunk first, order kept, side roles.  A few polygons on half-integer grid lines next to 2^20
+    (all arithmetic exact, ε far below ulp/2: the finding's second mechanism) are included.  Failures inside the region
     of the open finding C15-decimal-decomposition (smallest dimension ≤ 4.5e-4 × largest |coordinate|, i.e. the
     netlist's ε = 1e-12·smallest is below the rounding of cx ± w/2) that disappear when ε is floored at
     1e-14·largest |coordinate| carry the finding id; every other failure is a violation.
+Traced-polygon stream (ties the vertex-list half of the pipeline to the theorems `matrix_of_traced_polygon`,
+`traced_polygon_decomposes_iff`, `traced_polygon_area`, `matrix_start_orientation_indep`, `pip_closed_form`): a grid
+pattern S that is one simple polygon is traced (harness tracer, independent of the implementation), mapped through
+exact (int / half / dyadic) or decimal coordinate lists, with all / none / a random subset of the collinear points kept,
+in BOTH orientations and from EVERY start vertex.  For each of these vertex lists
+  * the matrix `strop_decomposition` really hands to `Strop` (captured by wrapping the name `Strop` in utils.py for the
+    duration of the call) must be the source pattern sampled at the centres of the pipeline's own cells (computed by
+    bisection in the source coordinate lists — no point-in-polygon test involved), and must equal the model's matrix;
+  * the Lean predicate `tracesGrid σ S vs` (the hypothesis of the theorems) is evaluated by the driver and must hold;
+  * rectangles are returned iff the brute-force oracle finds a trunk in S; Σ w·h = |shoelace|; Lean `shoelace2` = the
+    harness's shoelace sum;
+  * `is_point_inside_polygon` on cell centres, grid-line points, vertices and outside points = the closed form
+    (parity of the vertical edges strictly to the right whose half-open y-range contains the ordinate), evaluated both
+    by the harness and by the model (`rightCount`).
+Histogram polygons (theorem `histogram_traces`: the hypothesis is PROVED for this class) are generated exactly as
+`histLoop` builds them, repeated vertices included.
+`StropInstance(Strop(grid), trunk)` is also constructed directly for arbitrary trunk rectangles (the `_valid == False`
+return path is unreachable through `Strop`: theorem `potential_trunk_is_instance`) and compared with `mkInstance`.
 All-zero grids: the implementation builds no potential trunk, `is_strop` is False (and the brute-force oracle, which
 needs a non-empty trunk, agrees); empty / ragged matrices raise `AssertionError` (`err:Assert` in the model).
 """
@@ -38,6 +57,8 @@ from frame.geometry.geometry import Point, Rectangle, Shape
 from frame.netlist.module import Module
 from frame.netlist.netlist import Netlist
 from tools.floorset_parser.floor_set_manager.strop import Strop
+from tools.floorset_parser.floor_set_manager import strop as STROP_MOD
+import tools.floorset_parser.floor_set_manager.utils.utils as UTILS_MOD
 from tools.floorset_parser.floor_set_manager.utils.utils import strop_decomposition, is_point_inside_polygon
 
 LEVEL = "proof"
@@ -46,8 +67,10 @@ TRUSTED = [
     "Lean 4.33 kernel; axioms ⊆ {propext, Classical.choice, Quot.sound}",
     "hand-written model FV/Model/Strop.lean — fidelity to strop.py / utils.py checked by this correspondence run "
     "(all grids up to 4×5 and 5×4 in the thorough tier), not proved",
-    "even–odd point-in-polygon is modelled and compared, its geometric correctness for arbitrary vertex lists is not "
-    "proved; tied by the shoelace-area check",
+    "even–odd point-in-polygon: proved to mark exactly the cells of S for every vertex list that satisfies the executable "
+    "edge condition `tracesGrid σ S vs` (matrix_of_traced_polygon) — that the harness's boundary tracer produces such lists "
+    "is not proved but evaluated by the driver on every traced polygon (hypothesis monitor, op `traces`); proved as a class "
+    "for axis-parallel rectangles only",
     "recognition by create_stog is proved against the C06 model (FV/Model/Stog.lean, whose fidelity is C06's "
     "correspondence check) and exercised here on the implementation with the loader's ε",
     "harness (Python) and compiled Lean driver: parsing, canonicalisation, comparison, brute-force oracle",
@@ -377,9 +400,10 @@ def gen_grid(rng) -> tuple[str, list[str]]:
 
 
 # ------------------------------------------------------------------ polygons from grids
-def trace_boundary(g) -> list[tuple[int, int]] | None:
+def trace_boundary(g, keep_collinear=None) -> list[tuple[int, int]] | None:
     """counter-clockwise vertex loop (column index, row index; row index grows downwards) of the 1-cells, or None
-    when the pattern is not one simple polygon (disconnected, hole, pinch point)."""
+    when the pattern is not one simple polygon (disconnected, hole, pinch point).  Collinear unit-step points are
+    dropped unless `keep_collinear(point)` says otherwise."""
     nr, nc = len(g), len(g[0])
 
     def at(i, j):
@@ -421,7 +445,7 @@ def trace_boundary(g) -> list[tuple[int, int]] | None:
     out = []
     for k, p in enumerate(loop):  # drop collinear points
         a, b = loop[k - 1], loop[(k + 1) % len(loop)]
-        if (a[0] == p[0] == b[0]) or (a[1] == p[1] == b[1]):
+        if ((a[0] == p[0] == b[0]) or (a[1] == p[1] == b[1])) and not (keep_collinear and keep_collinear(p)):
             continue
         out.append(p)
     return out
@@ -773,11 +797,251 @@ def compare(ctx: Ctx, todo, replies) -> None:
             ok, exact = decomp_matches(impl, parse_cands(model, inp["mode"]), inp["mode"])
             if ok and not exact:
                 ctx.drift += 1
+        elif op == "rcount":
+            parts = model.split()
+            ok = len(parts) == 2 and parts[0] == "1" and parts[1].isdigit() and str(int(parts[1]) % 2) == impl
         else:
             ok = impl == model
         if not ok:
             size = len(inp.get("rows", inp.get("verts", inp.get("row", ""))))
             ctx.disagree(op, inp, impl if isinstance(impl, str) else repr(impl), model[:600], size=size)
+
+
+# ------------------------------------------------------------------ traced polygons: matrix, hypothesis monitor, closed form
+def impl_decomp_captured(vs, nd: bool):
+    """`strop_decomposition(vertices)` plus the rows of the 0/1 matrix it really hands to `Strop` (the module-level name
+    `Strop` of utils.py is wrapped for the duration of the call; None when that observation point is not there)."""
+    orig = getattr(UTILS_MOD, "Strop", None)
+    if orig is None:
+        return impl_decomp(vs, nd), None
+    cap: list = []
+
+    def spy(m, *a, **k):
+        cap.append(m)
+        return orig(m, *a, **k)
+
+    UTILS_MOD.Strop = spy
+    try:
+        res = impl_decomp(vs, nd)
+    finally:
+        UTILS_MOD.Strop = orig
+    rows = None
+    if cap and isinstance(cap[0], str):
+        rows = cap[0].split("\n")
+        if rows and rows[-1] == "":
+            rows = rows[:-1]
+    return res, rows
+
+
+def expected_matrix(vs, src_rows, xs_src, ys_src) -> list[str]:
+    """the source pattern sampled at the centres of the cells of the pipeline's own grid (distinct vertex abscissae
+    ascending × distinct ordinates descending).  Exact; no point-in-polygon test.  A centre that falls on a source grid
+    line lies between two identical source columns / rows (a grid line without a vertex carries no boundary)."""
+    import bisect
+    X = sorted(set(Fraction(x) for x, _ in vs))
+    Y = sorted(set(Fraction(y) for _, y in vs), reverse=True)
+    xsrc = [Fraction(x) for x in xs_src]
+    ysrc_asc = [Fraction(y) for y in ys_src][::-1]
+    nr, nc = len(src_rows), len(src_rows[0])
+    out = []
+    for i in range(len(Y) - 1):
+        cy = (Y[i] + Y[i + 1]) / 2
+        ka = bisect.bisect_right(ysrc_asc, cy) - 1          # ascending gap index
+        r = nr - 1 - ka
+        row = ""
+        for j in range(len(X) - 1):
+            cx = (X[j] + X[j + 1]) / 2
+            c = bisect.bisect_right(xsrc, cx) - 1
+            row += src_rows[r][c] if 0 <= r < nr and 0 <= c < nc else "0"
+        out.append(row)
+    return out
+
+
+def closed_form_inside(px, py, vs) -> bool:
+    """parity of the vertical edges strictly to the right of the point whose half-open y-range contains its ordinate."""
+    n, cnt = len(vs), 0
+    for k in range(n):
+        (x1, y1), (x2, y2) = vs[k], vs[(k + 1) % n]
+        if x1 == x2 and ((y1 <= py < y2) or (y2 <= py < y1)) and px < x1:
+            cnt += 1
+    return cnt % 2 == 1
+
+
+def traced_variant_case(ctx: Ctx, mode: str, fam: str, vs, nd: bool, sigma: int, src_rows, xs_src, ys_src, reqs, todo,
+                        with_decomp: bool, rng=None) -> list[str] | None:
+    """one vertex list of the traced-polygon stream; returns the captured matrix rows."""
+    inp = {"kind": "traced", "mode": mode, "verts": [[x, y] for x, y in vs], "nd": nd, "family": fam, "sigma": sigma,
+           "src_rows": src_rows, "xs": list(xs_src), "ys": list(ys_src), "with_decomp": with_decomp}
+    fails: list = []
+    expect = expected_matrix(vs, src_rows, xs_src, ys_src)
+    r = guarded(fails, "strop_decomposition", impl_decomp_captured, vs, nd)
+    res, cap = r if isinstance(r, tuple) else (r, None)
+    _flush(ctx, fails, inp, len(vs))
+    if cap is not None:
+        if cap != expect:
+            ctx.spec_fail("matrix_of_traced_polygon", inp, {"matrix": cap, "expected": expect}, size=len(vs))
+        nx = len(set(x for x, _ in vs))
+        ny = len(set(y for _, y in vs))
+        reqs.append(f"{mode} vgrid " + verts_req(vs, mode))
+        todo.append(("vgrid", inp, f"{nx} {ny} {len(cap)}" + "".join(" " + (r if r else ".") for r in cap)))
+    else:
+        ctx.count("traced:matrix-not-observable")
+    # hypothesis of the theorems, evaluated by the model on the expected pattern
+    reqs.append(f"{mode} traces {sigma} " + grid_req(expect) + " " + verts_req(vs, mode))
+    todo.append(("traces", inp, "1 1 1 1"))
+    exists = oracle_exists_trunk(to_bool(expect)) if well_formed(expect) else False
+    if isinstance(res, list) or res == "err:Assert":
+        if exists != isinstance(res, list):
+            ctx.spec_fail("decomposition_iff_exists_trunk", inp, {"oracle": exists, "impl": "rectangles" if isinstance(res, list) else res},
+                          size=len(vs))
+    if isinstance(res, list):
+        area = abs(shoelace(vs))
+        tot = sum(Fraction(r[2]) * Fraction(r[3]) for r in res)
+        tol = Fraction(0) if mode == "Q" else Fraction(1, 10 ** 9) * max(Fraction(1), area)
+        if abs(tot - area) > tol:
+            ctx.spec_fail("rects_area", inp, {"shoelace": float(area), "rectangles": float(tot)}, size=len(vs))
+    if with_decomp:
+        reqs.append(f"{mode} decomp " + verts_req(vs, mode))
+        todo.append(("decomp", inp, res))
+        if mode == "Q":
+            reqs.append("Q shoelace " + verts_req(vs, "Q"))
+            todo.append(("shoelace", inp, q2s(2 * shoelace(vs))))
+    ctx.case("traced-" + mode, (mode, tuple(vs), nd), nontrivial=True,
+             sample={"mode": mode, "verts": inp["verts"][:8], "matrix": cap})
+    ctx.count("traced:" + ("strop" if exists else "not-strop"))
+    return cap
+
+
+def pip_closed_case(ctx: Ctx, mode: str, vs, nd: bool, px, py, reqs, todo) -> None:
+    """`is_point_inside_polygon` on an axis-parallel loop vs the closed form (harness and model)."""
+    inp = {"kind": "pipc", "mode": mode, "verts": [[x, y] for x, y in vs], "p": [px, py], "nd": nd}
+    fails: list = []
+    got = guarded(fails, "is_point_inside_polygon", _pip_impl, px, py, vs, nd)
+    _flush(ctx, fails, inp, len(vs))
+    if got in ("0", "1"):
+        want = closed_form_inside(px, py, vs)
+        if (got == "1") != want:
+            ctx.spec_fail("pip_closed_form", inp, {"impl": got, "closed_form": int(want)}, size=len(vs))
+        reqs.append(f"{mode} pip {sc(px, mode)} {sc(py, mode)} " + verts_req(vs, mode))
+        todo.append(("pip", inp, got))
+        reqs.append(f"{mode} rcount {sc(px, mode)} {sc(py, mode)} " + verts_req(vs, mode))
+        todo.append(("rcount", inp, got))
+    ctx.case("pip-closed-" + mode, (tuple(vs), px, py), nontrivial=True)
+    ctx.count("pip-closed")
+
+
+def gen_traced_source(rng, mode: str):
+    """(family, rows, xs, ys): a grid pattern that is one simple polygon + strictly monotone coordinate lists."""
+    for _ in range(300):
+        nr, nc = rng.randint(1, 5), rng.randint(1, 5)
+        k = rng.random()
+        if k < 0.5:
+            fam, rows = "strop", gen_strop_grid(rng, nr, nc)
+        elif k < 0.65:
+            fam, rows = "near-strop", flip(rng, gen_strop_grid(rng, nr, nc))
+        elif k < 0.85:
+            fam, rows = "grown", gen_grown(rng, nr, nc)
+        elif k < 0.93:
+            t = rng.choice(TEMPLATES)
+            if rng.random() < 0.5:
+                t = ["".join(r[j] for r in t) for j in range(len(t[0]))]
+            if rng.random() < 0.5:
+                t = t[::-1]
+            fam, rows = "template", list(t)
+        else:
+            fam, rows = "random", ["".join("1" if rng.random() < 0.7 else "0" for _ in range(nc)) for _ in range(nr)]
+        if not any("1" in r for r in rows) or trace_boundary(to_bool(rows)) is None:
+            continue
+        nr, nc = len(rows), len(rows[0])
+        cf = rng.choice(COORD_FAMILIES_Q if mode == "Q" else ["dec", "float"])
+        return fam + ":" + cf, rows, increasing(rng, nc + 1, cf), increasing(rng, nr + 1, cf)[::-1]
+    raise RuntimeError("traced-polygon generator starved")
+
+
+def traced_family(ctx: Ctx, rng, mode: str, reqs, todo) -> None:
+    """one source pattern: every start vertex × both orientations × a collinear-point policy."""
+    fam, rows, xs, ys = gen_traced_source(rng, mode)
+    pol = rng.choice(["drop", "keep-all", "keep-some"])
+    keep = None if pol == "drop" else ((lambda p: True) if pol == "keep-all" else (lambda p, r=rng.random: r() < 0.5))
+    loop = trace_boundary(to_bool(rows), keep)
+    base = [(xs[j], ys[i]) for (j, i) in loop]
+    nd = rng.random() < 0.4
+    n = len(base)
+    mats = set()
+    k_dec = rng.randrange(n)
+    for sigma, seq in ((1, base), (-1, base[::-1])):
+        for r in range(n):
+            vs = seq[r:] + seq[:r]
+            cap = traced_variant_case(ctx, mode, f"{fam}/{pol}", vs, nd, sigma, rows, xs, ys, reqs, todo,
+                                      with_decomp=(r == k_dec))
+            if cap is not None:
+                mats.add(tuple(cap))
+    if len(mats) > 1:
+        ctx.spec_fail("matrix_start_orientation_indep", {"kind": "traced-family", "mode": mode, "src_rows": rows, "xs": xs, "ys": ys,
+                                                          "policy": pol}, {"matrices": sorted(mats)[:4]}, size=n)
+    # closed form of the even–odd test: centres, grid-line points (on the boundary too), vertices, outside points
+    X = sorted(set(x for x, _ in base))
+    Y = sorted(set(y for _, y in base))
+    pts = []
+    cand_x = X + [(a + b) / 2 for a, b in zip(X, X[1:])] + [X[0] - 1, X[-1] + 1]
+    cand_y = Y + [(a + b) / 2 for a, b in zip(Y, Y[1:])] + [Y[0] - 1, Y[-1] + 1]
+    for _ in range(6):
+        pts.append((rng.choice(cand_x), rng.choice(cand_y)))
+    vs = base if rng.random() < 0.5 else base[::-1]
+    r = rng.randrange(n)
+    vs = vs[r:] + vs[:r]
+    for px, py in pts:
+        pip_closed_case(ctx, mode, vs, nd, px, py, reqs, todo)
+
+
+def histogram_family(ctx: Ctx, rng, mode: str, reqs, todo) -> None:
+    """the class of theorem `histogram_traces` exactly as `histLoop` builds it (clockwise; equal neighbouring heights give
+    a repeated vertex, i.e. a zero-length edge): matrix = `histGrid`, from random start vertices, both orientations."""
+    n = rng.randint(1, 6)
+    cf = rng.choice(COORD_FAMILIES_Q if mode == "Q" else ["dec", "float"])
+    xs = increasing(rng, n + 1, cf)
+    levels = increasing(rng, rng.randint(2, 5), cf)          # levels[0] = base line, the others are possible heights
+    b, hs = levels[0], [rng.choice(levels[1:]) for _ in range(n)]
+    vs = [(xs[0], b)]
+    for j in range(n):
+        vs += [(xs[j], hs[j]), (xs[j + 1], hs[j])]
+    vs.append((xs[n], b))
+    ys = sorted(set([b] + hs), reverse=True)
+    rows = ["".join("1" if ys[i] <= hs[j] else "0" for j in range(n)) for i in range(len(ys) - 1)]
+    nd = rng.random() < 0.4
+    for sigma, seq in ((-1, vs), (1, vs[::-1])):
+        for r in {0, rng.randrange(len(seq)), rng.randrange(len(seq))}:
+            traced_variant_case(ctx, mode, "histogram:" + cf, seq[r:] + seq[:r], nd, sigma, rows, xs, ys, reqs, todo,
+                                with_decomp=(r == 0))
+    ctx.count("histogram:" + ("repeated-vertex" if any(a == b2 for a, b2 in zip(hs, hs[1:])) else "distinct-neighbours"))
+
+
+def impl_mk(rows: list[str], r1: int, r2: int, c1: int, c2: int) -> str:
+    s = Strop(rows_to_str(rows))
+    t = STROP_MOD.StropInstance(s, STROP_MOD.StropRectangle(STROP_MOD.Interval(r1, r2), STROP_MOD.Interval(c1, c2)))
+    return _inst(t) if t.valid() else "invalid"
+
+
+def mk_case(ctx: Ctx, rows: list[str], rect, reqs, todo) -> None:
+    """`StropInstance(Strop(grid), trunk)` for an arbitrary in-grid trunk rectangle (also non-candidates: the cell-count
+    test answers `_valid == False`, a path `Strop` itself never takes)."""
+    r1, r2, c1, c2 = rect
+    inp = {"kind": "mk", "rows": rows, "rect": [r1, r2, c1, c2]}
+    fails: list = []
+    got = guarded(fails, "StropInstance()", impl_mk, rows, r1, r2, c1, c2)
+    _flush(ctx, fails, inp, len(rows))
+    reqs.append(f"G mk {r1} {r2} {c1} {c2} " + grid_req(rows))
+    todo.append(("mk", inp, got))
+    if isinstance(got, str) and not got.startswith("raised:"):
+        # spec (theorem `valid_iff_count`): for an ALL-ONES rectangle, valid <=> every other 1-cell hangs on it (the
+        # brute-force trunk test); for other rectangles the cell count can coincide by accident: model comparison only
+        g = to_bool(rows)
+        ones = all(g[i][j] for i in range(r1, r2 + 1) for j in range(c1, c2 + 1))
+        ok = trunk_ok(g, len(g), len(g[0]), r1, r2, c1, c2)
+        if ones and ok != (got != "invalid"):
+            ctx.spec_fail("instance_valid_iff_trunk", inp, {"impl": got, "oracle": ok}, size=len(rows) * len(rows[0]))
+    ctx.case("mk", (tuple(rows), rect), nontrivial=True)
+    ctx.count("mk:" + ("valid" if got != "invalid" else "invalid"))
 
 
 # ------------------------------------------------------------------ decimal coordinates, loaded through Netlist
@@ -876,6 +1140,11 @@ def decimal_case(ctx: Ctx, vs, nd: bool, fam: str) -> None:
         if floor_ok is True:
             finding = FINDING_DECIMAL
     ctx.count("decimal:not-recognised" + (":finding" if finding else ""))
+    # which of the two mechanisms of the finding: rounding of cx ± w/2, or ε absorbed in `x - ε` (sides bit-exact)
+    lines_x, lines_y = {float(x) for x, _ in vs}, {float(y) for _, y in vs}
+    sides_exact = all((r[0] - r[2] / 2) in lines_x and (r[0] + r[2] / 2) in lines_x and
+                      (r[1] - r[3] / 2) in lines_y and (r[1] + r[3] / 2) in lines_y for r in rects)
+    ctx.count("decimal:not-recognised:" + ("sides-bit-exact(absorbed-epsilon)" if sides_exact else "sides-rounded"))
     ctx.spec_fail("netlist_recognised", inp, {"has_stog": has_stog, "roles": roles, "expected": expected_roles(rects),
                                               "rects": rects, "epsilon": eps, "smallest/largest": smallest / largest},
                   size=len(vs), finding=finding)
@@ -896,6 +1165,33 @@ def gen_decimal_polygon(rng, thin: bool):
         k = rng.randrange(len(vs))
         return vs[k:] + vs[:k]
     raise RuntimeError("decimal polygon generator starved")
+
+
+def gen_offset_dyadic_polygon(rng):
+    """single-trunk polygon on half-integer grid lines next to 2^20 / 2^22: every sum, half and difference is exact in
+    binary64 (the recomputed sides ARE the grid lines) while the netlist's ε = 1e-12·smallest is far below ulp/2 of the
+    coordinates — the second mechanism of the open finding (findings/C15_flush_branch_absorbed_epsilon.py)."""
+    for _ in range(200):
+        nr, nc = rng.randint(1, 4), rng.randint(1, 4)
+        rows = gen_strop_grid(rng, nr, nc)
+        loop = trace_boundary(to_bool(rows))
+        if loop is None or len(loop) <= 4:
+            continue
+        base = float(2 ** rng.choice([20, 22]))
+
+        def lines(n):
+            out, k = [], rng.randint(0, 8)
+            for _ in range(n):
+                out.append(base + k / 2)
+                k += rng.randint(1, 6)
+            return out
+        xs, ys = lines(nc + 1), lines(nr + 1)[::-1]
+        vs = [(xs[j], ys[i]) for (j, i) in loop]
+        if rng.random() < 0.5:
+            vs = vs[::-1]
+        k = rng.randrange(len(vs))
+        return vs[k:] + vs[:k]
+    raise RuntimeError("offset-dyadic polygon generator starved")
 
 
 # ------------------------------------------------------------------ exhaustive tier (multiprocessing)
@@ -1001,7 +1297,11 @@ def run(ctx: Ctx) -> None:
                 "one simple polygon) through random increasing coordinate lists (exact: int/half/dyadic → Rat model; "
                 "decimal/thirds/uniform doubles → Float model), either orientation, random start, 25% with an extra "
                 "collinear vertex, as Point lists and as numpy arrays; point-in-polygon additionally on random general "
-                "polygons with half-integer coordinates.  non-trivial = grid with at least one 1 / every vertex list; "
+                "polygons with half-integer coordinates; traced-polygon families: one source pattern (50% STrOPs, flipped, grown, "
+                "templates, random) × exact or decimal/uniform coordinate lists × {collinear points dropped, all kept, half kept} × both "
+                "orientations × EVERY start vertex (captured matrix vs the source pattern, `tracesGrid` monitor, iff-oracle, area, "
+                "closed form of the even–odd test on centres / grid-line points / outside points); StropInstance on arbitrary in-grid "
+                "trunk rectangles.  non-trivial = grid with at least one 1 / every vertex list; "
                 "distinct = distinct grid / vertex list")
     ctx.assumptions.append("vertex lists describe simple orthogonal polygons (generated as boundaries of grid patterns); "
                            "coordinates are finite doubles, no NaN / signed zeros")
@@ -1032,9 +1332,23 @@ def run(ctx: Ctx) -> None:
         poly_case(ctx, mode, fam, vs, rng.random() < 0.4, reqs, todo, src_rows=src)
     for _ in range(ctx.n(2000, 20000)):
         pip_case(ctx, rng, reqs, todo)
+    for k in range(ctx.n(160, 2500)):
+        traced_family(ctx, rng, "Q" if k % 3 != 2 else "F", reqs, todo)
+    for k in range(ctx.n(120, 1500)):
+        histogram_family(ctx, rng, "Q" if k % 3 != 2 else "F", reqs, todo)
+    for _ in range(ctx.n(3000, 30000)):
+        fam, rows = gen_grid(rng)
+        if not well_formed(rows):
+            continue
+        nr, nc = len(rows), len(rows[0])
+        r1 = rng.randrange(nr)
+        c1 = rng.randrange(nc)
+        mk_case(ctx, rows, (r1, rng.randrange(r1, nr), c1, rng.randrange(c1, nc)), reqs, todo)
     for k in range(ctx.n(700, 8000)):
         thin = k % 7 == 6
         decimal_case(ctx, gen_decimal_polygon(rng, thin), rng.random() < 0.4, "thin-gap" if thin else "gaps>=2")
+    for _ in range(ctx.n(12, 120)):
+        decimal_case(ctx, gen_offset_dyadic_polygon(rng), rng.random() < 0.4, "offset-dyadic")
     replies = ctx.model(reqs)
     if replies is None:
         ctx.notes.append("model driver unavailable: correspondence not run")
@@ -1055,6 +1369,22 @@ def _replay_into(ctx: Ctx, inp: dict, reqs, todo) -> None:
                   src_rows=inp.get("src_rows"))
     elif kind == "decimal":
         decimal_case(ctx, [tuple(v) for v in inp["verts"]], inp["nd"], inp.get("family", "replay"))
+    elif kind == "traced":
+        traced_variant_case(ctx, inp["mode"], inp.get("family", "replay"), [tuple(v) for v in inp["verts"]], inp["nd"],
+                            inp["sigma"], inp["src_rows"], inp["xs"], inp["ys"], reqs, todo, with_decomp=True)
+    elif kind == "traced-family":
+        rows, xs, ys = inp["src_rows"], inp["xs"], inp["ys"]
+        loop = trace_boundary(to_bool(rows), (lambda p: True) if inp.get("policy") == "keep-all" else None)
+        base = [(xs[j], ys[i]) for (j, i) in loop]
+        for sigma, seq in ((1, base), (-1, base[::-1])):
+            for r in range(len(seq)):
+                traced_variant_case(ctx, inp["mode"], "replay", seq[r:] + seq[:r], False, sigma, rows, xs, ys, reqs, todo,
+                                    with_decomp=False)
+    elif kind == "pipc":
+        px, py = inp["p"]
+        pip_closed_case(ctx, inp["mode"], [tuple(v) for v in inp["verts"]], inp["nd"], px, py, reqs, todo)
+    elif kind == "mk":
+        mk_case(ctx, list(inp["rows"]), tuple(inp["rect"]), reqs, todo)
     elif kind == "pip":
         vs = [tuple(v) for v in inp["verts"]]
         px, py = inp["p"]
